@@ -93,26 +93,28 @@ type interpreter struct {
 	goroutines         int32                  // atomically updated
 
 	// symbolic execution state
-	cfg         Config
-	stats       Stats
-	ps          *pathState // current path
-	trail       []undoRec  // undo log of heap mutations on this path
-	inInit      int        // >0 while running a package initializer
-	initRunning *ssa.Package
-	inited      map[*ssa.Package]bool // lazily initialised packages
-	initFailed  map[string]string     // package path -> reason
-	stubs       map[string]*ssa.Function
-	funcsRun    map[*ssa.Function]int // functions interpreted (for evidence)
-	depth       int
-	lastUnknown string
-	harnessPkgs map[*ssa.Package]bool
-	cur         *frame
-	methCache   map[methKey]*ssa.Function
-	fnInfos     map[*ssa.Function]*fnInfo
-	backing     map[*value][]value // &s[k] -> s[k:] for unsafe reinterpretation (recorded on IndexAddr when needed)
-	syncMaps    map[*value]*omap   // contents of sync.Map values, by address (sequential model)
-	waitGroups  map[*value]*int    // counters of sync.WaitGroup values, by address
-	mapIters    map[*value]*mapIterState
+	cfg            Config
+	stats          Stats
+	ps             *pathState // current path
+	trail          []undoRec  // undo log of heap mutations on this path
+	inInit         int        // >0 while running a package initializer
+	initRunning    *ssa.Package
+	inited         map[*ssa.Package]bool // lazily initialised packages
+	initFailed     map[string]string     // package path -> reason
+	stubs          map[string]*ssa.Function
+	funcsRun       map[*ssa.Function]int // functions interpreted (for evidence)
+	depth          int
+	lastUnknown    string
+	harnessPkgs    map[*ssa.Package]bool
+	cur            *frame
+	methCache      map[methKey]*ssa.Function
+	fnInfos        map[*ssa.Function]*fnInfo
+	backing        map[*value][]value // &s[k] -> s[k:] for unsafe reinterpretation (recorded on IndexAddr when needed)
+	syncMaps       map[*value]*omap   // contents of sync.Map values, by address (sequential model)
+	waitGroups     map[*value]*int    // counters of sync.WaitGroup values, by address
+	mapIters       map[*value]*mapIterState
+	bypassExternal string           // name of an external whose next call runs the real function
+	regexCache     map[string]value // regexp.Compile results for concrete patterns (built outside the undo trail)
 }
 
 type deferred struct {
@@ -575,7 +577,7 @@ func callSSA(i *interpreter, caller *frame, callpos token.Pos, fn *ssa.Function,
 				return callSSA(i, caller, callpos, st, args, nil)
 			}
 		}
-		if ext := externals[name]; ext != nil {
+		if ext := externals[name]; ext != nil && i.bypassExternal != name {
 			if i.mode&EnableTracing != 0 {
 				fmt.Fprintln(os.Stderr, "\t(external)")
 			}
